@@ -131,6 +131,7 @@ fn main() {
         "corr-filters" => corr_filters::corr(&mut ctx),
         "oracle-c19" => corr_filters::oracle(&mut ctx),
         "corr-geom" => corr_geom::corr(&mut ctx),
+        "oracle-geom-e2e" => corr_geom::oracle_e2e(&mut ctx),
         "e2e" => e2e::oracle(&mut ctx),
         "corr-eval" => corr_eval::corr(&mut ctx),
         "oracle-determinism" => corr_eval::oracle(&mut ctx),
